@@ -71,7 +71,7 @@ def run(pid, tier, replay=None):
     rr = vlib.run_harness([exe, "random", str(ck.seed), str(nh), str(no), sc.path("rnd"), "14"], timeout=1800)
     mrr = re.search(r"^SUMMARY (\{.*\})$", rr.stdout or "", re.M)
     if rr.returncode != 0 or not mrr:
-        if rr.returncode in (97, 98, 99, -6, -11) or "Sanitizer" in (rr.stderr or ""):
+        if rr.returncode in (96, 97, 98, 99, -6, -11) or "Sanitizer" in (rr.stderr or ""):
             ck.violation("crash:que:random-history", {"what": "sanitizer abort during a long random queue history", "stderr": (rr.stderr or "")[-1500:], "stdout": (rr.stdout or "")[-600:]})
         elif (rr.stderr or "").startswith("TIMEOUT"):
             ck.violation("hang:que:random-history", {"what": "a queue operation or a walk of the ring did not terminate during a long random history", "detail": rr.stderr})
